@@ -366,3 +366,64 @@ def frame_obligations(module, functions, forbidden_params, extra_fresh=(), allow
             out.append((f"frame[{module.split('.')[-1]}.{f}: no write reaches storage of parameter `{p}`]", not ws,
                         "; ".join(f"line {ln}: {what}" for ln, what in ws[:4])))
     return out
+
+
+def module_state_obligations(module):
+    """No function of `module` writes module-level mutable state (caches, registries): results must not depend on earlier calls."""
+    src, tree = loader.load_module(module)
+    globals_ = set()
+    for n in tree.body:
+        if isinstance(n, ast.Assign):
+            for t in n.targets:
+                if isinstance(t, ast.Name):
+                    globals_.add(t.id)
+    out = []
+    bad = []
+
+    def locals_of(fn):
+        loc = {a.arg for a in fn.args.args + fn.args.kwonlyargs + fn.args.posonlyargs}
+        for x in ast.walk(fn):
+            if isinstance(x, ast.Name) and isinstance(x.ctx, ast.Store):
+                loc.add(x.id)
+            if isinstance(x, (ast.For, ast.comprehension)):
+                for y in ast.walk(x.target):
+                    if isinstance(y, ast.Name):
+                        loc.add(y.id)
+        return loc
+
+    def visit(fn, qual):
+        loc = locals_of(fn)
+        declared_global = set()
+        for x in ast.walk(fn):
+            if isinstance(x, (ast.Global, ast.Nonlocal)):
+                declared_global |= set(x.names)
+                bad.append((qual, x.lineno, f"global {', '.join(x.names)}"))
+        for x in ast.walk(fn):
+            tgt = None
+            if isinstance(x, ast.Assign):
+                tgt = x.targets
+            elif isinstance(x, ast.AugAssign):
+                tgt = [x.target]
+            for t in tgt or []:
+                if isinstance(t, (ast.Subscript, ast.Attribute)):
+                    b = t
+                    while isinstance(b, (ast.Subscript, ast.Attribute)):
+                        b = b.value
+                    if isinstance(b, ast.Name) and b.id in globals_ and (b.id not in loc or b.id in declared_global):
+                        bad.append((qual, x.lineno, f"store into module-level {b.id}"))
+            if isinstance(x, ast.Call) and isinstance(x.func, ast.Attribute) and x.func.attr in MUTATORS | {"setdefault", "__setitem__"}:
+                b = x.func.value
+                while isinstance(b, (ast.Subscript, ast.Attribute)):
+                    b = b.value
+                if isinstance(b, ast.Name) and b.id in globals_ and (b.id not in loc or b.id in declared_global):
+                    bad.append((qual, x.lineno, f".{x.func.attr}() on module-level {b.id}"))
+    for n in tree.body:
+        if isinstance(n, ast.FunctionDef):
+            visit(n, n.name)
+        if isinstance(n, ast.ClassDef):
+            for m in n.body:
+                if isinstance(m, ast.FunctionDef):
+                    visit(m, f"{n.name}.{m.name}")
+    out.append((f"no-hidden-state[{module}: no function writes module-level state]", not bad,
+                "; ".join(f"{q} line {ln}: {w}" for q, ln, w in bad[:4])))
+    return out
